@@ -267,6 +267,22 @@ fn const_value_json<'tcx>(tcx: TyCtxt<'tcx>, cv: ConstValue, t: Ty<'tcx>) -> J {
             let (prov, off) = ptr.into_raw_parts();
             let aid = prov.alloc_id();
             if let ty::Ref(_, inner, _) = t.kind() {
+                // reference to a reference: follow the inner pointer through the allocation's provenance map
+                if let ty::Ref(_, inner2, _) = inner.kind() {
+                    if let mir::interpret::GlobalAlloc::Memory(a) = tcx.global_alloc(aid) {
+                        if let Some(p2) = a.inner().provenance().get_ptr(off) {
+                            let aid2 = p2.alloc_id();
+                            if let Some(sz) = type_size(tcx, *inner2) {
+                                if let Some(b) = bytes_of_alloc(tcx, aid2, 0, sz as usize) {
+                                    return J::Obj(vec![
+                                        ("kind", J::s("ref_ref_bytes")),
+                                        ("bytes", J::Arr(b.into_iter().map(|x| J::Int(x as i128)).collect())),
+                                    ]);
+                                }
+                            }
+                        }
+                    }
+                }
                 if let Some(sz) = type_size(tcx, *inner) {
                     if let Some(b) = bytes_of_alloc(tcx, aid, off.bytes(), sz as usize) {
                         return J::Obj(vec![
